@@ -97,6 +97,9 @@ def parse_unit(path):
                     segs.append(("text", f"// ---- include {inc}"))
                     segs.extend(sub["segments"])
                     meta.setdefault("expects", []).extend(sub["meta"].get("expects", []))
+                    for b in sub["meta"].get("broadcasts", []):
+                        if b not in meta.setdefault("broadcasts", []):
+                            meta["broadcasts"].append(b)
                     meta["includes"].append(inc)
                     meta["includes"] += [i for i in sub["meta"]["includes"] if i not in meta["includes"]]
             elif d == "file:":
@@ -106,6 +109,8 @@ def parse_unit(path):
             elif d == "opt:":
                 kv, _ = parse_kv(toks[1:])
                 meta.setdefault("opts", {}).update(kv)
+            elif d == "broadcast:":
+                meta.setdefault("broadcasts", []).extend(toks[1:])
             elif d == "expect":
                 m = re.match(r'expect\s+file=(\S+)\s+text="(.*)"\s*$', body)
                 if not m:
@@ -145,7 +150,7 @@ def parse_unit(path):
             elif d == "hint":
                 if cur is None:
                     raise UnitError(f"{path}:{ln_no}: //@ hint outside extract fn")
-                m = re.match(r'hint\s+(before|after|start|end)\s*(?:"(.*)")?\s*(?:#(\d+))?', body)
+                m = re.match(r'hint\s+(before|after|start|end|loopstart|loopend)\s*(?:"(.*)")?\s*(?:#?(\d+))?', body)
                 if not m:
                     raise UnitError(f"{path}:{ln_no}: bad hint directive")
                 h = {"where": m.group(1), "anchor": m.group(2), "nth": int(m.group(3) or 0), "text": []}
@@ -200,6 +205,22 @@ def find_balanced(s, start, open_ch="(", close_ch=")"):
 
 
 def splice_body(body, ex, item):
+    # loop-relative hints first (positions are found through the still-present loop markers)
+    for h in ex["hints"]:
+        if h["where"] not in ("loopstart", "loopend"):
+            continue
+        txt = "\n".join(h["text"])
+        mk = "__hq_loop!(%d);" % h["nth"]
+        pos = body.find(mk)
+        if pos < 0:
+            raise UnitError(f"LOST-ANCHOR {ex['path']}: hint names loop {h['nth']} which does not exist")
+        if h["where"] == "loopstart":
+            at = pos + len(mk)
+            body = body[:at] + "\n" + txt + "\n" + body[at:]
+        else:
+            open_idx = body.rfind("{", 0, pos)
+            close = find_balanced(body, open_idx, "{", "}")
+            body = body[:close] + "\n" + txt + "\n" + body[close:]
     # loops
     nloops = len(item.get("loops") or [])
     for ordn in ex["loops"]:
@@ -235,6 +256,8 @@ def splice_body(body, ex, item):
     # hints
     for h in ex["hints"]:
         txt = "\n".join(h["text"])
+        if h["where"] in ("loopstart", "loopend"):
+            continue
         if h["where"] == "start":
             i = body.index("{")
             body = body[: i + 1] + "\n" + txt + "\n" + body[i + 1 :]
@@ -246,7 +269,9 @@ def splice_body(body, ex, item):
             anchor = re.sub(r"\s+", "", h["anchor"])
             idxs = [i for i, l in enumerate(lines) if anchor in re.sub(r"\s+", "", l)]
             if len(idxs) <= h["nth"]:
-                raise UnitError(f"LOST-ANCHOR {ex['path']}: hint anchor {h['anchor']!r} #{h['nth']} not found")
+                # the statement the hint supports is gone: the hint is moot (recorded; see DESIGN §3.2 hints)
+                ex.setdefault("skipped_hints", []).append(h["anchor"])
+                continue
             i = idxs[h["nth"]]
             if h["where"] == "before":
                 lines.insert(i, txt)
@@ -277,11 +302,13 @@ def build_request(ex, meta):
         "path": ex["path"],
         "panics": o.get("panics", meta["panics"]),
     }
+    if ex.get("rename_calls"):
+        r["rename_calls"] = ex["rename_calls"]
     if "trait" in o:
         r["trait"] = o["trait"]
     if "derive" in o:
         r["derive_keep"] = [x for x in o["derive"].split(",") if x and x != "Structural"]
-    for k in ("index_recv", "drop_calls", "opaque_macros"):
+    for k in ("index_recv", "drop_calls", "opaque_macros", "mut_params"):
         if k in o:
             r[k] = o[k].split(",")
     if o.get("copied_to_map") == "1":
@@ -290,6 +317,47 @@ def build_request(ex, meta):
         r["slice"] = {"from": o.get("slice_from", "").replace("~", " ") or None,
                       "to": o.get("slice_to", "").replace("~", " ") or None}
     return r
+
+
+NOPANIC_TAG = re.compile(r"//#\s*nopanic\b")
+
+
+def expand_twins(unit):
+    """`twin=pc` on an extract fn: emit a second, partial-correctness copy `<name>__pc` of the same real
+    function in diverge mode (N14) without the contract lines tagged `//! nopanic`; inside twins, calls to
+    other twinned functions go to their `__pc` copies. The original stays in obligation mode (C09)."""
+    import copy
+    twinned = {}
+    for kind, seg in unit["segments"]:
+        if kind == "extract" and seg["kind"] == "fn" and seg["opts"].get("twin") == "pc":
+            last = seg["path"].split("::")[-1]
+            twinned[last] = last + "__pc"
+    if not twinned:
+        return unit
+    segs = []
+    for kind, seg in unit["segments"]:
+        segs.append((kind, seg))
+        if kind == "extract" and seg["kind"] == "fn" and seg["opts"].get("twin") == "pc":
+            t = copy.deepcopy(seg)
+            last = seg["path"].split("::")[-1]
+            t["opts"] = dict(seg["opts"])
+            t["opts"]["panics"] = "diverge"
+            t["opts"]["rename"] = last + "__pc"
+            t["opts"].pop("twin")
+            props = t["opts"].get("props") or ",".join(unit["meta"]["props"])
+            t["opts"]["props"] = ",".join(x for x in props.split(",") if x and x != "C09") or "none"
+            t["rename_calls"] = dict(twinned)
+            t["twin_of"] = seg["path"]
+            strip = lambda ls: [l for l in ls if not NOPANIC_TAG.search(l)]
+            t["contract"] = strip(t["contract"])
+            for lp in t["loops"].values():
+                lp["text"] = strip(lp["text"])
+            for h in t["hints"]:
+                h["text"] = strip(h["text"])
+            segs.append(("extract", t))
+    u2 = dict(unit)
+    u2["segments"] = segs
+    return u2
 
 
 class Assembled:
@@ -311,6 +379,7 @@ def assemble(unit, workdir, vacuity_twins=False):
             raise UnitError(f"LOST-ANCHOR expected file {f} missing")
         if re.sub(r"\s+", "", txt) not in re.sub(r"\s+", "", src):
             raise UnitError(f"LOST-ANCHOR {f}: expected text not found: {txt!r}")
+    unit = expand_twins(unit)
     extracts = [s[1] for s in unit["segments"] if s[0] == "extract"]
     reqs = [build_request(ex, meta) for ex in extracts]
     items = run_extractor(reqs, workdir)
@@ -328,6 +397,7 @@ def assemble(unit, workdir, vacuity_twins=False):
 
     emit("// GENERATED by /verif/lib/hqv.py from %s and the current working tree of %s — do not edit" % (os.path.relpath(unit["path"], VERIF), REPO))
     emit("#![allow(unused_imports, unused_variables, dead_code, unused_mut, unused_parens, unused_braces, non_snake_case, unreachable_code, unreachable_patterns, unused_assignments)]")
+    emit("#![feature(allocator_api)]")
     emit("use vstd::prelude::*;")
     emit("verus! {")
     it_iter = iter(zip(extracts, items))
@@ -354,6 +424,12 @@ def assemble(unit, workdir, vacuity_twins=False):
                 txt = item["impl_header"] + " {\n" + txt + "\n}"
             emit(txt)
             continue
+        if ex["kind"] == "sig":
+            shape = item["shape"]
+            for k in ("arity", "receiver"):
+                if k in ex["opts"] and str(shape[k]) != ex["opts"][k].replace("~", " "):
+                    raise UnitError(f"LOST-ANCHOR {ex['path']}: signature shape changed ({k}: {shape[k]!r})")
+            continue
         if ex["kind"] == "trait":
             # drift detection only
             want = ex["opts"].get("methods", "")
@@ -377,7 +453,8 @@ def assemble(unit, workdir, vacuity_twins=False):
         contract = "\n".join(ex["contract"]).rstrip()
         body = splice_body(item["body"], ex, item)
         hdr = item.get("impl_header")
-        emit(f"// ---- extracted fn {ex['path']} from {src} (panics={build_request(ex, meta)['panics']})")
+        fq = ex["path"] + ("__pc" if ex.get("twin_of") else "")
+        emit(f"// ---- extracted fn {fq} from {src} (panics={build_request(ex, meta)['panics']})")
         if hdr:
             emit(hdr + " {")
         for a in ex["opts"].get("attrs", "").split(";"):
@@ -390,12 +467,14 @@ def assemble(unit, workdir, vacuity_twins=False):
         end = cur_line() - 1
         if hdr:
             emit("}")
-        A.fn_ranges.append((start, end, ex["path"], {"file": item["file"], "line": item["line"], "end_line": item.get("end_line"),
+        A.fn_ranges.append((start, end, fq, {"file": item["file"], "line": item["line"], "end_line": item.get("end_line"),
                                                     "props": ex["opts"].get("props", "").split(",") if ex["opts"].get("props") else meta["props"]}))
         for ap in item.get("applied") or []:
-            A.applied.append({"fn": ex["path"], **ap})
+            A.applied.append({"fn": fq, **ap})
         for ps in item.get("panic_sites") or []:
-            A.panic_sites.append({"fn": ex["path"], "file": item["file"], "mode": build_request(ex, meta)["panics"], **ps})
+            A.panic_sites.append({"fn": fq, "file": item["file"], "mode": build_request(ex, meta)["panics"], **ps})
+    if meta.get("broadcasts"):
+        emit("broadcast use {" + ", ".join(meta["broadcasts"]) + "};")
     emit("proof fn __hq_canary() ensures false {}")
     emit("} // verus!")
     emit("fn main() {}")
